@@ -579,6 +579,9 @@ class RPCInterface:
         """
         # WARN: do NOT check OPERATION (it is used internally in DISTRIBUTION state)
         _, process = self._get_application_process(namespec)
+        if not process:
+            # extra arguments can only apply to a single process ('group:*' is not supported here)
+            self._raise(Faults.BAD_NAME, 'start_args', f'namespec={namespec} does not identify a single process')
         # update command line in process config with extra_args
         try:
             self.supvisors.supervisor_data.update_extra_args(process.namespec, extra_args)
